@@ -221,11 +221,17 @@ def run(run, replay=None):
     states_ok = {"freq": {json.dumps(old_dump["frequencies"]), json.dumps(new_dump["frequencies"])},
                  "dic": {json.dumps(old_dump["user_entries"]), json.dumps(new_dump["user_entries"])}}
     n = 0
-    if traced:
-        limit = None if run.tier == "thorough" else 40
-        for desc, d, prefix in crash_dirs(traced, old, new, wd):
-            if limit is not None and n >= limit:
+
+    def exercise(old_files, ok_states, tag, limit):
+        nonlocal n
+        k_ = 0
+        wd_ = os.path.join(wd, tag)
+        os.makedirs(wd_, exist_ok=True)
+        for desc, d, prefix in crash_dirs(traced, old_files, new, wd_):
+            desc = tag + ": " + desc
+            if limit is not None and k_ >= limit:
                 break
+            k_ += 1
             n += 1
             stale_tmp = any(x.endswith(".tmp") for x in os.listdir(d))
             udic = os.path.join(d, "user.dic")
@@ -238,7 +244,7 @@ def run(run, replay=None):
                 dmp = s2.dump()
                 w = {"crash": desc, "operations": prefix, "files": sorted(os.listdir(d)),
                      "restored_frequencies": dmp and dmp["frequencies"], "restored_user_entries": dmp and dmp["user_entries"]}
-                if dmp is None or json.dumps(dmp["frequencies"]) not in states_ok["freq"] or json.dumps(dmp["user_entries"]) not in states_ok["dic"]:
+                if dmp is None or json.dumps(dmp["frequencies"]) not in ok_states["freq"] or json.dumps(dmp["user_entries"]) not in ok_states["dic"]:
                     fails.append(("data-lost", {"kind": "crash-loses-data"}, w))
                     continue
                 if stale_tmp:
@@ -268,6 +274,12 @@ def run(run, replay=None):
                     fails.append(("saving-disabled", {"kind": "crash-loses-data", "effect": "saving-disabled"}, w))
             finally:
                 s2.stop()
+    if traced:
+        exercise(old, states_ok, "saved-before", None if run.tier == "thorough" else 40)
+        # the very first save of a fresh directory: nothing was saved before, so "the previously saved version" is the
+        # default (empty) state; a crash must leave defaults or the new version, and saving must keep working
+        fresh_ok = {"freq": {json.dumps([]), json.dumps(new_dump["frequencies"])}, "dic": {json.dumps([]), json.dumps(new_dump["user_entries"])}}
+        exercise({"frequency.bin": None, "user.dic": None}, fresh_ok, "first-save", None if run.tier == "thorough" else 20)
     seen = set()
     for kind, key, w in fails:
         k = json.dumps(key, sort_keys=True)
